@@ -72,20 +72,32 @@ type dumper struct {
 
 func hx(b []byte) string { return "x" + hex.EncodeToString(b) }
 
-// protoNameOf: the proto message full name a Go value is encoded as.
-func protoNameOf(t reflect.Type) string {
+// protoNameOf: the proto message full name a Go value is encoded as (wrapper table, else the
+// generated struct of the same name in the .proto file's go_package).
+func (d *dumper) protoNameOf(t reflect.Type) string {
 	for t.Kind() == reflect.Ptr {
 		t = t.Elem()
 	}
 	if w, ok := wrappers[t]; ok {
 		return w.proto
 	}
-	if pm, ok := reflect.New(t).Interface().(proto.Message); ok {
-		if n := proto.MessageName(pm); n != "" {
-			return n
-		}
+	if m, ok := d.set.ByGo[t.PkgPath()+"."+t.Name()]; ok {
+		return m.Full
 	}
 	return ""
+}
+
+// asProtoMessage returns a proto.Message view (pointer) of a message value.
+func asProtoMessage(v reflect.Value) proto.Message {
+	for v.Kind() == reflect.Interface {
+		v = v.Elem()
+	}
+	if v.Kind() != reflect.Ptr {
+		p := reflect.New(v.Type())
+		p.Elem().Set(v)
+		v = p
+	}
+	return v.Interface().(proto.Message)
 }
 
 func tagIndex(t reflect.Type) (byNum map[int]int, oneofs map[string]int) {
@@ -278,8 +290,8 @@ func (d *dumper) dumpField(m *pMessage, f *pField, v reflect.Value) string {
 			return "{x,~}"
 		}
 		inner := v.Elem()
-		name := protoNameOf(inner.Type())
-		url := "/" + proto.MessageName(v.Interface().(proto.Message))
+		name := d.protoNameOf(inner.Type())
+		url := "/" + proto.MessageName(asProtoMessage(inner))
 		return "{" + hx([]byte(url)) + ",&" + name + ":" + d.dumpValue(name, inner) + "}"
 	}
 	if t == tProof {
@@ -369,4 +381,34 @@ func (d *dumper) dumpField(m *pMessage, f *pField, v reflect.Value) string {
 		return "[" + strings.Join(el, ",") + "]"
 	}
 	return one(v)
+}
+
+// goIntKindOf looks the generated struct up in gogoproto's type registry and reports the width of
+// the Go field carrying proto field `num` ("" when unknown).
+func goIntKindOf(full string, num int) string {
+	t := proto.MessageType(full)
+	if t == nil {
+		return ""
+	}
+	for t.Kind() == reflect.Ptr {
+		t = t.Elem()
+	}
+	byNum, _ := tagIndex(t)
+	i, ok := byNum[num]
+	if !ok {
+		return ""
+	}
+	switch t.Field(i).Type.Kind() {
+	case reflect.Int, reflect.Int64, reflect.Uint, reflect.Uint64:
+		return "l"
+	case reflect.Int32:
+		return "w"
+	case reflect.Uint32:
+		return "u"
+	case reflect.Uint8:
+		return "y"
+	case reflect.Bool:
+		return "b"
+	}
+	return ""
 }
